@@ -3,6 +3,7 @@
 namespace sim {
 #ifndef HAVE_ENG_ZONE
 Engine *make_zone_engine() { return nullptr; }
+Engine *make_zoneh_engine() { return nullptr; }
 #endif
 #ifndef HAVE_ENG_HIST
 Engine *make_hist_engine() { return nullptr; }
